@@ -514,6 +514,10 @@ func Select(arr, idx *Term) *Term {
 	if !ok {
 		panic("Select on non-array " + string(arr.sort) + " " + arr.String())
 	}
+	// a read from a merged heap is the merge of the reads: no array-sorted ite reaches the solver from here
+	if arr.op == "ite" && len(arr.args) == 3 {
+		return Ite(arr.args[0], Select(arr.args[1], idx), Select(arr.args[2], idx))
+	}
 	// read-over-write simplification
 	a := arr
 	for a.op == "store" {
